@@ -554,16 +554,40 @@ def state_word(op):
 class _Adapter:
     """requests transport adapter answering from the scripted host (mode 'http')."""
 
+    BASE = 1700000000          # HTTP dates of the scripted host: BASE + logical time, in seconds
+
     def __init__(self, world):
         self.world = world
+        self.clock = 0
+        self.resources = {}        # url (path and query) -> (logical time of the last change, body)
 
     def send(self, request, **kw):
         import requests
+        from email.utils import formatdate, parsedate_to_datetime
         code, data = self.world.http(request.url)
         self.world.http_calls += 1
+        body = json.dumps(data)
+        # a host with per-resource validators (Last-Modified / If-Modified-Since, RFC 7232): a resource first asked for
+        # now existed long before (time 0); its date moves when its content does
+        self.clock += 1
+        ent = self.resources.get(request.url)
+        if ent is None:
+            ent = (0, body)
+        elif ent[1] != body:
+            ent = (self.clock, body)
+        self.resources[request.url] = ent
+        ims = request.headers.get('If-Modified-Since')
+        not_modified = False
+        if code == 200 and ims:
+            try:
+                not_modified = parsedate_to_datetime(ims).timestamp() >= self.BASE + ent[0]
+            except (TypeError, ValueError):
+                not_modified = False
         r = requests.Response()
-        r.status_code = code
-        r._content = json.dumps(data).encode()
+        r.status_code = 304 if not_modified else code
+        r._content = b'' if not_modified else body.encode()
+        if code == 200:
+            r.headers['Last-Modified'] = formatdate(self.BASE + ent[0], usegmt=True)
         r.headers['Content-Type'] = 'application/json'
         r.url = request.url
         r.request = request
